@@ -21,8 +21,9 @@ structure Queries (σ : Type) where
   keys : σ → List Key
 
 /-- Essential internal-method invariants (§6.1.7.3), each phrased as "the result passes the §10.5 check against
-the state the method leaves behind", plus purity and totality of the four query methods. -/
-structure Lawful {σ : Type} (q : Queries σ) (T : Ops σ) : Prop where
+the state the method leaves behind", plus purity and totality of the four query methods — everything except the
+invariant of [[DefineOwnProperty]], which comes in two strengths below. -/
+structure LawfulCore {σ : Type} (q : Queries σ) (T : Ops σ) : Prop where
   isExt_eq : ∀ s, T.isExt s = (.ok (q.ext s), s)
   getOwn_eq : ∀ k s, T.getOwn k s = (.ok (q.own k s), s)
   getProto_eq : ∀ s, T.getProto s = (.ok (q.proto s), s)
@@ -31,11 +32,28 @@ structure Lawful {σ : Type} (q : Queries σ) (T : Ops σ) : Prop where
   setProto_inv : ∀ p s s', T.setProto p s = (.ok true, s') → q.ext s' = true ∨ q.proto s' = p
   prevExt_inv : ∀ s s', T.prevExt s = (.ok true, s') → q.ext s' = false
   define_wf : ∀ k d s, ¬ d.WF → T.define k d s = (.typeError, s)
-  define_inv : ∀ k d s s', T.define k d s = (.ok true, s') → specDefineCheck (q.own k s') (q.ext s') d = .ok ()
   has_inv : ∀ k s s', T.has k s = (.ok false, s') → specHasCheck (q.own k s') (q.ext s') = .ok ()
   get_inv : ∀ k r s v s', T.get k r s = (.ok v, s') → specGetCheck (q.own k s') v = .ok ()
   set_inv : ∀ k v r s s', T.set k v r s = (.ok true, s') → specSetCheck (q.own k s') v = .ok ()
   delete_inv : ∀ k s s', T.delete k s = (.ok true, s') → specDeleteCheck true (q.own k s') (q.ext s') false = .ok ()
+  /-- an object without [[Call]] / [[Construct]]: invoking them is a TypeError that leaves the state alone (the fields are
+  only meaningful under the flags; this pins the convention) -/
+  call_nc : T.callable = false → ∀ this args s, T.call this args s = (.typeError, s)
+  construct_nc : T.constructor = false → ∀ args nt s, T.construct args nt s = (.typeError, s)
+
+/-- LAWFUL: additionally, every successful [[DefineOwnProperty]] leaves a property compatible with the descriptor -/
+structure Lawful {σ : Type} (q : Queries σ) (T : Ops σ) : Prop extends LawfulCore q T where
+  define_inv : ∀ k d s s', T.define k d s = (.ok true, s') → specDefineCheck (q.own k s') (q.ext s') d = .ok ()
+
+/-- LAWFUL ON admissible inputs: the [[DefineOwnProperty]] invariant is required only for (key, descriptor, state)
+triples in `adm`.  Needed for objects whose define CONVERTS the value it stores (Array `length`: ToUint32), for which
+ECMA-262 itself makes a forwarding proxy non-transparent on the non-canonical values. -/
+structure LawfulOn {σ : Type} (adm : Key → PD → σ → Prop) (q : Queries σ) (T : Ops σ) : Prop extends LawfulCore q T where
+  define_inv_on : ∀ k d s s', adm k d s → T.define k d s = (.ok true, s') →
+    specDefineCheck (q.own k s') (q.ext s') d = .ok ()
+
+theorem Lawful.toOn {σ : Type} {q : Queries σ} {T : Ops σ} (h : Lawful q T) (adm : Key → PD → σ → Prop) : LawfulOn adm q T :=
+  { h.toLawfulCore with define_inv_on := fun k d s s' _ hd => h.define_inv k d s s' hd }
 
 /-! ### round trips between the spec view and the implementation view of a property / descriptor -/
 
@@ -165,7 +183,9 @@ theorem ownKeys_honest (ext : Bool) (ks : List Key) (h : ks.Nodup) :
 theorem Ops.ext' {σ : Type} {A B : Ops σ}
     (h1 : A.getProto = B.getProto) (h2 : A.setProto = B.setProto) (h3 : A.isExt = B.isExt) (h4 : A.prevExt = B.prevExt)
     (h5 : A.getOwn = B.getOwn) (h6 : A.define = B.define) (h7 : A.has = B.has) (h8 : A.get = B.get)
-    (h9 : A.set = B.set) (h10 : A.delete = B.delete) (h11 : A.ownKeys = B.ownKeys) : A = B := by
+    (h9 : A.set = B.set) (h10 : A.delete = B.delete) (h11 : A.ownKeys = B.ownKeys)
+    (h12 : A.callable = B.callable) (h13 : A.constructor = B.constructor) (h14 : A.call = B.call)
+    (h15 : A.construct = B.construct) : A = B := by
   cases A; cases B; simp_all
 
 
@@ -195,6 +215,10 @@ def frozenOps (props : List (Key × Val)) : Ops FState where
   set := fun _ _ _ s => (.ok false, s)
   delete := fun k s => (.ok (fLookup props k).isNone, s)
   ownKeys := fun s => (.ok ((props.map (·.1)).eraseDups), s)
+  callable := false
+  constructor := false
+  call := fun _ _ s => (.typeError, s)
+  construct := fun _ _ s => (.typeError, s)
 
 def frozenQueries (props : List (Key × Val)) : Queries FState where
   ext := fun s => s.ext
@@ -268,6 +292,8 @@ theorem frozen_lawful (props : List (Key × Val)) : Lawful (frozenQueries props)
     injection h with h1 _
     simp only [frozenQueries]
     cases hl : fLookup props k <;> simp_all [specDeleteCheck]
+  call_nc := fun _ _ _ _ => rfl
+  construct_nc := fun _ _ _ _ => rfl
 
 
 /-! ### loop invariants of proxyOwnKeys (proxy.go:797-833) -/
@@ -534,6 +560,10 @@ structure SimLog {β : Type} (A : Ops (β × TLog)) (B : Ops β) : Prop where
   set : ∀ k v r b l, ∃ l', A.set k v r (b, l) = ((B.set k v r b).1, ((B.set k v r b).2, l'))
   delete : ∀ k b l, ∃ l', A.delete k (b, l) = ((B.delete k b).1, ((B.delete k b).2, l'))
   ownKeys : ∀ b l, ∃ l', A.ownKeys (b, l) = ((B.ownKeys b).1, ((B.ownKeys b).2, l'))
+  callable : A.callable = B.callable
+  constructor : A.constructor = B.constructor
+  call : ∀ this args b l, ∃ l', A.call this args (b, l) = ((B.call this args b).1, ((B.call this args b).2, l'))
+  construct : ∀ args nt b l, ∃ l', A.construct args nt (b, l) = ((B.construct args nt b).1, ((B.construct args nt b).2, l'))
 
 /-- a base object placed next to a trap log it never touches -/
 def liftOps {β : Type} (B : Ops β) : Ops (β × TLog) where
@@ -548,5 +578,9 @@ def liftOps {β : Type} (B : Ops β) : Ops (β × TLog) where
   set := fun k v r s => ((B.set k v r s.1).1, ((B.set k v r s.1).2, s.2))
   delete := fun k s => ((B.delete k s.1).1, ((B.delete k s.1).2, s.2))
   ownKeys := fun s => ((B.ownKeys s.1).1, ((B.ownKeys s.1).2, s.2))
+  callable := B.callable
+  constructor := B.constructor
+  call := fun this args s => ((B.call this args s.1).1, ((B.call this args s.1).2, s.2))
+  construct := fun args nt s => ((B.construct args nt s.1).1, ((B.construct args nt s.1).2, s.2))
 
 end GojaModel.C11
